@@ -6,7 +6,7 @@ import gen.pmtlib as L
 from gen.pmtlib import fmt_val
 
 PROP = "C14"
-PROOF_FILES = ["Properties/C14.v"]
+PROOF_FILES = ["Properties/C14.v", "Properties/ModelTie.v"]
 RULE = ("the C06 carrier generator restricted to pointer_field + one PMT section (CRC computed by the Coq model of "
         "ComputeCRC) + stuffing, packetised by the Coq spec (ser.pkts: full / random / tiny chunks, adaptation-field "
         "stuffing, empty-payload packets, trailing all-stuffing packets), crossed with requested PID lists: every subset "
